@@ -13,6 +13,12 @@
     action.classify <text-hex>                -> <token class>
     action.numval <text-hex>                  -> <token class> [<bits of the value | ->]   (`parse_right`)
     action.dequote <text-hex>                 -> <text-hex> | err
+    action.fmtdouble <bits>                   -> <text-hex> | none          (`format_double`; none = not finite / outside `int`)
+    action.fmtrt <bits>                       -> <class> <bits> | none      (`format_double`, then `get_type` + `strtod` of the text)
+    action.rsteval <ctx>* | <cond>*           -> ok <0|1> <wells> | err | noparse | none   (`ActionX(RstAction)` + `eval`)
+       cond:  C;<lhs-hex>;<get_func of lhs>;<wg-hex|-|e>;<cmp 1..6>;<N:q-hex:wg-hex|-|e or V:bits>;<lp>;<rp>;<logic>
+    action.rsttok <lhs-hex> <wg-hex|-> <cmp 1..6> <N:q-hex:wg-hex|- or V:bits> <lp> <rp> <logic 0|1|2>
+                                              -> <token-hex,…> | none       (`RstAction::Condition::tokens()`)
     action.glob <pattern-hex> <name-hex>      -> 0 | 1
     action.sim <ev>*                          -> <name>.<id>@<t>,… | -  ;  <name>.<id>=<count>:<last> …
        ev:  D:<name-hex>:<max_run>:<min_wait>:<start>   (`Actions::add`)
@@ -21,6 +27,7 @@
 -/
 import OpmVerif.Model.Action
 import OpmVerif.Model.ActionTok
+import OpmVerif.Model.ActionFmt
 -- driver: prefix=action handler=OpmVerif.Act.handle
 
 namespace OpmVerif.Act
@@ -246,6 +253,38 @@ def simHandle (args : List String) : String :=
       String.join (acts.map fun a => " " ++ showK a.key ++ "=" ++ toString (s a.key).count ++ ":" ++
         (if (s a.key).count = 0 then "-" else toString (s a.key).last))
 
+
+/-- one `RstAction::Condition` of `action.rsteval` with the `get_func` code of its left-hand quantity -/
+def parseRstCond (s : String) : Option (RstCond × Nat) :=
+  let optS (h : String) : Option (Option String) :=
+    if h = "-" then some none else if h = "e" then some (some "") else (hexStr h).map some
+  match s.splitOn ";" with
+  | ["C", l, lf, lw, o, r, lp, rp, lg] =>
+    let op? : Option CmpOp := match o with
+      | "1" => some .gt | "2" => some .lt | "3" => some .ge | "4" => some .le | "5" => some .eq | "6" => some .ne
+      | _ => none
+    let rhs? : Option RstQ := match r.splitOn ":" with
+      | ["N", q, w] => (match hexStr q, optS w with | some qq, some ww => some (.name qq ww) | _, _ => none)
+      | ["V", b] => (hexNat b).map .value
+      | _ => none
+    match hexStr l, lf.toNat?, optS lw, op?, rhs?, lg.toNat? with
+    | some lhs, some f, some lhsWg, some op, some rhs, some logic =>
+      some ({ lhs := lhs, lhsWg := lhsWg, op := op, rhs := rhs, lp := lp = "1", rp := rp = "1", logic := logic }, f)
+    | _, _, _, _, _, _ => none
+  | _ => none
+
+/-- the tokens `ActionX(RstAction)` hands to the parser for one condition: `tokens()`, each one dequoted
+(`normaliseRestartConditionTokens`), lexed; outer `none` = a constant `format_double` is not defined for,
+inner `none` = unbalanced quote -/
+def rstCondToks (cf : RstCond × Nat) : Option (Option (List Tok)) :=
+  match rstTokens cf.1 with
+  | none => none
+  | some strs =>
+    let lhsIdx := if cf.1.lp then 1 else 0
+    let idx := List.range strs.length
+    some ((strs.zip idx).mapM fun (t, i) =>
+      (dequote t.toList).map fun d => mkTok (String.ofList d) 0 (if i = lhsIdx then cf.2 else 0))
+
 def handle (op : String) (args : List String) : String :=
   match op with
   | "action.parse" =>
@@ -284,6 +323,24 @@ def handle (op : String) (args : List String) : String :=
           | .error _ => "err"
         | _ => "noparse"
     | _, _ => "bad-op"
+  | "action.rsteval" =>
+    let (ctxItems, cs) := splitBar args
+    match ctxItems.foldlM addItem ({} : RawCtx), cs.mapM parseRstCond with
+    | some rc, some conds =>
+      match conds.mapM rstCondToks with
+      | none => "none"
+      | some parts =>
+        match parts.mapM id with
+        | none => "noparse"
+        | some tss =>
+          match parse tss.flatten with
+          | .empty => "ok 0 -"
+          | .tree c =>
+            match evalCond slt (leafEval rc) c with
+            | .ok r => showRes r
+            | .error _ => "err"
+          | _ => "noparse"
+    | _, _ => "bad-op"
   | "action.classify" =>
     match args with
     | [t] =>
@@ -304,6 +361,44 @@ def handle (op : String) (args : List String) : String :=
          | .expr => "expr" | .lp => "lp" | .rp => "rp" | .and => "and" | .or => "or"
          | .cmp o => "cmp" ++ toString (opCode o))
       | none => "bad-op"
+    | _ => "bad-op"
+  | "action.fmtdouble" =>
+    match args with
+    | [b] =>
+      match hexNat b with
+      | some bits => (match fmtDouble bits with | some r => strHex (String.ofList r) | none => "none")
+      | none => "bad-op"
+    | _ => "bad-op"
+  | "action.fmtrt" =>
+    match args with
+    | [b] =>
+      match hexNat b with
+      | some bits =>
+        (match fmtDouble bits with
+         | some r =>
+           (match classify r with
+            | .number => "number " ++ (match numBits r with | some v => natHex16 v | none => "-")
+            | _ => "notnumber")
+         | none => "none")
+      | none => "bad-op"
+    | _ => "bad-op"
+  | "action.rsttok" =>
+    match args with
+    | [l, lw, o, r, lp, rp, lg] =>
+      let op? : Option CmpOp := match o with
+        | "1" => some .gt | "2" => some .lt | "3" => some .ge | "4" => some .le | "5" => some .eq | "6" => some .ne
+        | _ => none
+      let optS (h : String) : Option (Option String) := if h = "-" then some none else if h = "e" then some (some "") else (hexStr h).map some
+      let rhs? : Option RstQ := match r.splitOn ":" with
+        | ["N", q, w] => (match hexStr q, optS w with | some qq, some ww => some (.name qq ww) | _, _ => none)
+        | ["V", b] => (hexNat b).map .value
+        | _ => none
+      match hexStr l, optS lw, op?, rhs?, lg.toNat? with
+      | some lhs, some lhsWg, some op, some rhs, some logic =>
+        (match rstTokens { lhs := lhs, lhsWg := lhsWg, op := op, rhs := rhs, lp := lp = "1", rp := rp = "1", logic := logic } with
+         | some ts => String.intercalate "," (ts.map strHex)
+         | none => "none")
+      | _, _, _, _, _ => "bad-op"
     | _ => "bad-op"
   | "action.dequote" =>
     match args with
